@@ -2,6 +2,7 @@ import Genq.Props.C06
 open Genq.Types
 open Genq.Codec
 open Genq
+open Genq.FlattenAgree
 #print axioms C06_unique_keys
 #print axioms C06_direct_field_wins
 #print axioms C06_json_name_is_the_key
@@ -15,3 +16,5 @@ open Genq
 #print axioms C06_roundtrip_needs_coherence_witness
 #print axioms C06_null_object_with_abstract_list_witness
 #print axioms C06_codec_template_tie
+#print axioms C06_flatten_models_agree
+#print axioms C06_marshaled_keys_are_flattenedFields
